@@ -312,6 +312,18 @@ def D33():
     eao.portfolio.Portfolio([sc('a'), A.ScaledAsset(name='s', base_asset=base, max_scale=2)]).setup_optim_problem(pr, tg)
     return 'no error'
 
+@witness
+def D34():
+    tg = grid(); T = tg.T; pr = {'p': np.where((np.arange(T) % 12) < 6, 5., 30.), 'z': np.zeros(T)}
+    st = A.Storage('st', nodes=N1, size=4, cap_in=1, cap_out=1, start_level=2., end_level=2., max_store_duration=3.)
+    pf = eao.portfolio.Portfolio([sc('m', min_cap=-20, max_cap=20), st]); op = pf.setup_optim_problem(pr, tg); res = op.optimize()
+    m = op.mapping[(op.mapping.asset == 'st') & (op.mapping.type == 'd')]
+    level = 2. + np.cumsum([-res.x[i] for i in m.index])
+    run = worst = 0
+    for v in level:
+        run = run + 1 if v > 1e-6 else 0; worst = max(worst, run)
+    return f"max_store_duration=3 h, start level 2: fill level is non-zero for {worst} consecutive hours (levels min {level.min():.2f} max {level.max():.2f})"
+
 if __name__ == '__main__':
     which = sys.argv[1:] or list(W)
     for k in which:
